@@ -265,7 +265,7 @@ package encoding
 // invocation's struct. Stated as an invariant of the FIELD loop (loop 0), where it is local: keys are added nowhere
 // else, and each invocation of the recursion is verified for every (type, value), so the statement holds at every
 // level of embedding (paper step: induction over the nesting of Go types; which (type, value) pairs are visited is
-// collectEmbedded#ensures[which,what]).
+// collectEmbedded#ensures[which,what-struct,what-iface]).
 //@ spec wkOnlyEmittedCBOR(o *structFieldsCBOR, t reflect.Type, v reflect.Value, n int) bool = forallT(k, int, inDom(o.Fields, k) && !old(inDom(o.Fields, k)) ==> exists(j, 0, n, wkEmits(t, v, j, "cbor") && wkKeyInt(t, j) == k))
 //@ spec wkOnlyEmittedJSON(o *structFieldsJSON, t reflect.Type, v reflect.Value, n int) bool = forallT(k, string, inDom(o.Fields, k) && !old(inDom(o.Fields, k)) ==> exists(j, 0, n, wkEmits(t, v, j, "json") && wkKeyStr(t, j, "json") == k))
 
@@ -285,6 +285,11 @@ package encoding
 //@   ensures[arr] refOf(*embeds) == refOf(old(*embeds)) || fresh(*embeds)
 //@   ensures[which] ret == (typeField.Anonymous && typeField.Name == rtName(typeField.Type) && (rtKind(typeField.Type) == reflect.Struct || rtKind(typeField.Type) == reflect.Interface))
 //@   ensures[ordinary] !ret ==> *embeds == old(*embeds)
+//@   ensures[count] len(*embeds) == old(len(*embeds)) || len(*embeds) == old(len(*embeds)) + 1
+//@   ensures[prefix] forall(j, 0, old(len(*embeds)), (*embeds)[j] == old((*embeds)[j]))
+//@   ensures[what-struct] len(*embeds) == old(len(*embeds)) + 1 && rtKind(typeField.Type) == reflect.Struct ==> (*embeds)[old(len(*embeds))].Type == typeField.Type && (*embeds)[old(len(*embeds))].Value == valField
+//@   ensures[what-iface] len(*embeds) == old(len(*embeds)) + 1 && rtKind(typeField.Type) == reflect.Interface ==> (*embeds)[old(len(*embeds))].Type == rvTypeOf(rvElem(valField)) && (*embeds)[old(len(*embeds))].Value == rvElem(valField)
+//@   ensures[struct-collected] ret && rtKind(typeField.Type) == reflect.Struct ==> len(*embeds) == old(len(*embeds)) + 1
 //@   modifies *embeds, elems(*embeds)
 
 //@ func encoding.doPopulateStructFromCBOR
